@@ -297,7 +297,7 @@ def run(prog):
         nr = tup(node)
         errs = []
         if not (nr and nr[0] == lb_mu and unclone(nr[1]) == best_mu):
-            errs.append("the search returns %s, not the running best pair" % show(node)[:60])
+            errs.append("%sthe search returns %s, not the running best pair" % ("?" if nr is None else "", show(node)[:60]))
         put("BB4:result", errs, "returns the running best pair")
         # ---- BB6 bound
         ufn = prog.find1(name=uname, self_adt="repr::bdd::BddPtr", unit="rsdd-lib")
